@@ -120,6 +120,10 @@ def rand_dir(r):
     return entries
 
 
+def _child_signals():
+    core.child_signals()
+
+
 def generate(tier, rng):
     cases = []
     # witnesses of the known findings first
@@ -195,7 +199,7 @@ def attach(cvh, cases, tag):
             gq.append((c, x))
     if not gq:
         return
-    ans = core.run_harness(cvh, [x[1] for x in gq], tag + "cg")
+    ans = core.run_harness(cvh, [x[1] for x in gq], tag + "cg", keep_pid=False)
     for c, x in gq:
         a = ans.get(x.id, "")
         if a and ":" in a:
@@ -286,6 +290,7 @@ def pty_session(cicada, sb, idx, entries, keys, env_extra):
             # underflows on a wide character (width - 1) -- an artefact of the harness, not of a real terminal
             fcntl.ioctl(0, termios.TIOCSWINSZ, struct.pack("HHHH", 24, 200, 0, 0))
             os.chdir(cwd)
+            _child_signals()
             os.execve(cicada, [cicada], env)
         finally:
             os._exit(127)
